@@ -59,7 +59,13 @@ SPEC = {
                      "the order in which a document's keys are processed is not modelled (file sets, not sequences, are "
                      "compared); a load that raises is observed as 'broken' and its opened files are checked by the direct "
                      "oracle only"],
-    "assumptions": ["moving a configuration object from one configuration into another is modelled (Secrets.v sop2 / "
+    "assumptions": ["plaintext absence is checked on the implementation, not proved (the cipher is abstract in the theorems): "
+                    "plaintexts have UTF-8 length 6..12 or (about a third) exactly 32, 33, 40, 64, 65, 100, 200 or 33..200, "
+                    "ASCII and with two-byte code points, for every method (42 deterministic cases + random); every 8-byte "
+                    "window of every plaintext (head, middle, tail) is searched in the output bytes and every 6-byte window "
+                    "in the base64-decoded ciphertext of every {method, ciphertext} value of the written document (parsed "
+                    "back by the formatter) and of a second rendering",
+                    "moving a configuration object from one configuration into another is modelled (Secrets.v sop2 / "
                     "OMove, definitions only) as placing the sub-tree, own key file included, at the new position; the "
                     "theorems hold for every tree, hence for the result; the source configuration still refers to the moved "
                     "object (aliasing is outside the model) and is not used again by the stream after the first move",
